@@ -16,6 +16,10 @@ package main
 //  (2) CFG reachability with an edge filter (render's placement diff, clause
 //      d) and type-resolved syntactic checks (window use of c, commands of m).
 //
+// The executor is extended in c20ip.go (helper functions executed in the caller's state, boolean variables,
+// struct values field by field), c20loop.go (loop forms) and c20ctx.go (pointer aliases, local closures, a
+// function literal entered from the function around it, struct equality, loop iteration counts).
+//
 // Clauses a–e are those of DESIGN.md section 4; f–n (there is no l) were added
 // while reading image.go; each is a necessary condition of a sentence of the
 // property. A construct the recognisers do not understand is reported
@@ -348,6 +352,12 @@ func (x *c20Exec) eval(st *c20State, e ast.Expr) *c20Val {
 			// stands for its defining expression (main author: added after a fix moved a computation
 			// out of the goroutine literal)
 			if x.g != nil && x.g.Body != nil && (v.Pos() < x.g.Body.Pos() || v.Pos() > x.g.Body.End()) && x.roles[v] == "" {
+				// (when the literal is executed in the state of the function around it - a local closure called
+				// there, a goroutine literal entered from the statement that starts it, c20ctx.go - the variable
+				// has the value that function gave it)
+				if cur, bound := st.env[x.pathTerm(t).ID]; bound {
+					return cur
+				}
 				if rhs := singleDefOf(x.info, v); rhs != nil {
 					return x.eval(st, rhs)
 				}
@@ -545,6 +555,9 @@ func (x *c20Exec) bind(st *c20State, lhs ast.Expr, v *c20Val) {
 	if id, ok := lhs.(*ast.Ident); ok && id.Name == "_" {
 		return
 	}
+	if id, ok := lhs.(*ast.Ident); ok && x.ptrAliasOf(x.info.ObjectOf(id)) != nil {
+		return // p := &v: p has no storage of its own in the executor, p.f is v.f (c20ctx.go)
+	}
 	x.bindKey(st, x.pathTerm(lhs).ID, v)
 }
 
@@ -637,6 +650,9 @@ func (x *c20Exec) step(st *c20State, n ast.Node) {
 			switch {
 			case len(vs.Values) == len(vs.Names):
 				x.assign(st, name, vs.Values[i], x.eval(st, vs.Values[i]))
+			case len(vs.Values) == 0 && c20IsStructType(x.info.TypeOf(name)):
+				// var s T: a struct none of whose fields is set (each reads as its zero value, c20ip.go zeroOfLit)
+				x.bind(st, name, x.newVal(st, &c20Val{kind: "lit", disp: "zero " + name.Name, flds: map[string]*c20Val{}}))
 			case len(vs.Values) == 0:
 				zero := &c20Val{kind: "const", disp: "zero value"}
 				if b, ok := x.info.TypeOf(name).Underlying().(*types.Basic); ok && b.Info()&types.IsNumeric != 0 {
@@ -1063,7 +1079,7 @@ func runC20(c *Ctx) {
 		"C20.f resizeImage returns the source unchanged only if it fits, and scales only if it does not fit",
 		"C20.g cell counts round up: columns/lines in resizeImage, CellSize of all four image kinds = ceil(pixel extent / cell pixel extent), with the cell geometry that was passed to resizeImage and the box passed through unchanged",
 		"C20.h pixel extents of the source are extents (Dx/Dy or Max-Min), not Max coordinates",
-		"C20.i block images: cell i reads pixels (i mod W, 2*(i div W)) and the one below from the resized image; Draw puts cell i at (i mod W, i div W); each half of a half-block cell shows its own pixel's colour if opaque and the default colour if transparent",
+		"C20.i block images: cell i reads pixels (i mod W, 2*(i div W)) and the one below from the resized image; Draw puts cell i at (i mod W, i div W); each half of a half-block cell shows its own pixel's colour if opaque and the default colour if transparent; a cell that a path through the loop does not store must be the zero value of a slice made in the same Resize",
 		"C20.j colour plumbing: toRGB and averageColor keep channels apart and in order; averageColor averages all its inputs",
 		"C20.k every placement queued by a Draw sets all fields: position from win.Origin(), identity from the image, functions non-nil",
 		"C20.m kitty put/delete commands address the same image id and placement id, delete keeps the image data",
@@ -1779,7 +1795,13 @@ func c20ResizeMethod(c *Ctx, k *c20Kind) {
 			}
 		}
 	}
-	x.run(nil, func(st *c20State, b *cfg.Block) { atEnd(st) })
+	if outer := c.P.Graph(fi); outer != nil && outer != g {
+		// resizeImage is called inside a function literal (the encoder goroutine): the literal is entered from the
+		// statement of Resize that contains it, so that what it captures has the value Resize computed (c20ctx.go)
+		x.runLitInContext(outer, g, nil, func(st *c20State, b *cfg.Block) { atEnd(st) })
+	} else {
+		x.run(nil, func(st *c20State, b *cfg.Block) { atEnd(st) })
+	}
 	if x.overflow {
 		c.undecided("C20.g", name+"/paths", pos, "more than %d paths", c20MaxPaths)
 	}
@@ -1908,16 +1930,17 @@ func c20BlockKind(c *Ctx, k *c20Kind) {
 		return "other: " + v.disp
 	}
 
-	atStore := func(st *c20State, as *ast.AssignStmt, ix *ast.IndexExpr, fld *types.Var) {
-		p := as.Pos()
-		iv := x.eval(st, ix.Index)
+	// atStore judges one cell: at the statement that stores it (rhs = the stored expression), or, with rhs == nil,
+	// at the end of a path through the loop body that stores nothing into a slice that was freshly made before the
+	// loop: the cell then holds the zero value of the element type.
+	atStore := func(st *c20State, p token.Pos, iv *c20Val, idxDisp string, fld *types.Var, rhs ast.Expr) {
 		okIdx := iv.kind == "rangevar" && iv.isKey
 		if okIdx {
 			rse, _ := unparen(iv.rs.X).(*ast.SelectorExpr)
 			okIdx = rse != nil && info.Selections[rse] != nil && info.Selections[rse].Obj() == fld && rootObj(info, rse) == recv
 		}
 		if !okIdx {
-			agg.und("C20.i", keyMap, p, "the store index %s is not the key of a range over %s.%s", types.ExprString(ix.Index), recv.Name(), fld.Name())
+			agg.und("C20.i", keyMap, p, "the store index %s is not the key of a range over %s.%s", idxDisp, recv.Name(), fld.Name())
 			return
 		}
 		W := st.env[wKey]
@@ -2126,7 +2149,6 @@ func c20BlockKind(c *Ctx, k *c20Kind) {
 			}
 			return nil
 		}
-		rhs := as.Rhs[0]
 		switch {
 		case bot != nil && tuple[top] != nil && tuple[bot] != nil:
 			ta, ba := alphaOf(tuple[top]), alphaOf(tuple[bot])
@@ -2141,6 +2163,10 @@ func c20BlockKind(c *Ctx, k *c20Kind) {
 			}
 			agg.ok("C20.e", keyThr, p, "thresholds agree with transparentEnough = %d", T)
 			key := fmt.Sprintf("%s/cell for top pixel %s, bottom pixel %s", name, sTop, sBot)
+			if rhs == nil {
+				agg.und("C20.i", key, p, "on the path [%s] no cell is stored for this pixel pair and the zero value of the element type is not a block glyph", c20Conds(st))
+				return
+			}
 			glyph, fg, bg, ok := x.cellOf(st, rhs)
 			halves, known := c20Glyphs[glyph]
 			if !ok || !known {
@@ -2191,12 +2217,17 @@ func c20BlockKind(c *Ctx, k *c20Kind) {
 			}
 			agg.ok("C20.e", keyThr, p, "threshold agrees with transparentEnough = %d", T)
 			key := fmt.Sprintf("%s/cell for %s average", name, sA)
-			shown := colourOf(st, x.eval(st, rhs), map[string]*c20Val{"average": avgCall})
+			shown := "default" // nothing stored: the zero colour of the fresh slice
+			if rhs != nil {
+				shown = colourOf(st, x.eval(st, rhs), map[string]*c20Val{"average": avgCall})
+			}
 			want := "average"
 			if sA == "transparent" {
 				want = "default"
 			}
-			if shown == want {
+			if shown == want && rhs == nil {
+				agg.ok("C20.i", key, p, "stores nothing into the freshly made slice: the cell keeps the default colour")
+			} else if shown == want {
 				agg.ok("C20.i", key, p, "stores the %s colour", want)
 			} else {
 				agg.bad("C20.i", key, p, "the average is %s, so the cell must get the %s colour but gets: %s", sA, want, shown)
@@ -2205,13 +2236,60 @@ func c20BlockKind(c *Ctx, k *c20Kind) {
 			agg.und("C20.i", name+"/cell colour source", p, "the two pixels are neither converted by toRGB nor averaged by averageColor")
 		}
 	}
+	// the one slice field the stores go to
+	var storeFld *types.Var
+	for _, h := range stores {
+		if _, _, fld := isStore(h.Top); fld != nil {
+			if storeFld != nil && storeFld != fld {
+				storeFld = nil
+				break
+			}
+			storeFld = fld
+		}
+	}
 	x.run(func(st *c20State, l Loc, n ast.Node) bool {
 		if as, ix, fld := isStore(n); as != nil {
-			atStore(st, as, ix, fld)
+			atStore(st, as.Pos(), x.eval(st, ix.Index), types.ExprString(ix.Index), fld, as.Rhs[0])
 			return true
 		}
 		return false
-	}, nil)
+	}, func(st *c20State, b *cfg.Block) {
+		// a path that went through the body of the loop over the cells without storing one (a path ends at the
+		// first store it meets): the cell of that iteration has whatever the slice held before
+		if storeFld == nil {
+			return
+		}
+		var iv *c20Val
+		for _, v := range st.vals {
+			if v.kind == "rangevar" && v.isKey && v.rs != nil {
+				if rse, _ := unparen(v.rs.X).(*ast.SelectorExpr); rse != nil && info.Selections[rse] != nil && info.Selections[rse].Obj() == storeFld && rootObj(info, rse) == recv {
+					iv = v
+				}
+			}
+		}
+		if iv == nil || c20IterCount(st, g, iv.rs) == 0 {
+			return // the loop was not entered
+		}
+		p := iv.rs.Pos()
+		if !p.IsValid() {
+			p = pos
+		}
+		keyKeep := name + "/a cell that is not stored is the zero value of a slice made in this Resize"
+		sl := st.env[fmt.Sprintf("%p.%s", recv, storeFld.Name())]
+		et, _ := storeFld.Type().Underlying().(*types.Slice)
+		switch {
+		case sl == nil || sl.kind != "make":
+			agg.bad("C20.i", keyKeep, p, "on the path [%s] cell i is not stored and %s.%s was not made afresh before the loop: the cell keeps the colour of the previous image", c20Conds(st), recv.Name(), storeFld.Name())
+			return
+		case et == nil:
+			return
+		}
+		if bt, ok := et.Elem().Underlying().(*types.Basic); !ok || bt.Info()&types.IsNumeric == 0 {
+			agg.und("C20.i", keyKeep, p, "on the path [%s] cell i is not stored and the zero value of the element type is not a colour", c20Conds(st))
+			return
+		}
+		atStore(st, p, iv, iv.disp, storeFld, nil)
+	})
 	agg.flush()
 	c20BlockDraw(c, k)
 }
@@ -2444,6 +2522,7 @@ func c20ColourPlumbing(c *Ctx) {
 	}
 	g := c.P.Graph(fi)
 	x := c20NewExec(c, g, roles)
+	x.maxIter = 2 // one and two iterations: a counter that stands for the number of colours must follow
 	agg := c20NewAgg(c)
 	key := func(k int) string {
 		return "vaxis.averageColor/result " + fmt.Sprint(k) + " is the mean of the " + c20Channel[k] + " channel"
@@ -2470,7 +2549,19 @@ func c20ColourPlumbing(c *Ctx) {
 		if call == nil {
 			return true // path with no iteration
 		}
-		if len(ret.Results) != 4 {
+		// the four results: written out, or those of one helper call the executor has run
+		var results []*c20Val
+		switch {
+		case len(ret.Results) == 4:
+			for _, r := range ret.Results {
+				results = append(results, x.eval(st, r))
+			}
+		case len(ret.Results) == 1:
+			if rv := x.eval(st, ret.Results[0]); rv.kind == "tuple" && len(rv.args) == 4 {
+				results = rv.args
+			}
+		}
+		if len(results) != 4 {
 			agg.und("C20.j", keyAll, ret.Pos(), "return without four explicit results")
 			return true
 		}
@@ -2488,14 +2579,24 @@ func c20ColourPlumbing(c *Ctx) {
 		sort.Strings(missing)
 		divOK := true
 		var divs []string
+		iters := c20IterCount(st, g, elem.rs)
+		// the number of colours: len of the averaged list, or a counter that starts at zero and has been
+		// incremented exactly once per iteration on this path (paths of one and of two iterations are enumerated,
+		// so an increment outside the loop, a skipped or a doubled one is seen)
+		isCount := func(d *c20Val) bool {
+			if d.kind == "len" && len(d.args) == 1 && d.args[0] == ranged {
+				return true
+			}
+			return d.kind == "inc" && iters > 0 && d.inc == iters && d.base != nil && d.base.kind == "const" && d.base.hasK && d.base.k == 0
+		}
 		for k := 0; k < 4; k++ {
-			v := x.eval(st, ret.Results[k])
+			v := results[k]
 			if v.kind != "bin" || v.op != token.QUO {
 				agg.und("C20.j", key(k), ret.Pos(), "%s is not a quotient sum/count", v.disp)
 				continue
 			}
 			d := v.args[1]
-			if !(d.kind == "len" && len(d.args) == 1 && d.args[0] == ranged) {
+			if !isCount(d) {
 				divOK = false
 				divs = append(divs, d.disp)
 			}
